@@ -29,14 +29,16 @@ open World Ark.Props.C01World QueryRel
     (`CKeep`) -/
 theorem opExchange_rel_keep (run : ProbeRunner) (p : Path) {w : World} {fl : List Nat}
     (h : TInv w fl) (hl : w.isLocked = false) (hno : ∀ (evt : Nat), w.obs.hasObservers evt = false)
-    {e : Ent} (h2 : 2 ≤ e.id) (hnf : e.id ∉ fl) (ha : w.alive e = true) {add rem : List Comp}
+    {e : Ent} (h2 : 2 ≤ e.id) (hnf : e.id ∉ fl) (ha : w.alive e = true)
+    (hsl : e.id < w.pool.ents.length) {add rem : List Comp}
     {rels : List RelID} (hp : XchgPre w e add rem rels) (vals : List (Comp × Val))
+    (htin : ∀ (r : RelID), r ∈ rels → r.target.id < w.pool.ents.length)
     (hfew : w.tables.length < maxU32) (hrows : w.entities.length + 1 < 2 ^ 32) :
     ∃ (w' : World), opExchange run p e add vals rem rels w = .ok () w' ∧
       XchgRelPost w fl e add rem vals rels w' ∧ QKeep w w' ∧ RelRefine2.CKeep w w' := by
-  obtain ⟨w', hok, post⟩ := opExchange_rel_spec run p h hl hno h2 hnf ha hp vals hfew hrows
+  obtain ⟨w', hok, post⟩ := opExchange_rel_spec run p h hl hno h2 hnf ha hsl hp vals htin hfew hrows
   refine ⟨w', hok, post, ?_⟩
-  obtain ⟨w2, hcore, cp⟩ := exchangeCore_rel_spec run h hl hno h2 hnf ha hp hfew hrows
+  obtain ⟨w2, hcore, cp⟩ := exchangeCore_rel_spec run h hl hno h2 hnf ha hsl hp htin hfew hrows
   have hk256 : w.kinds.length ≤ 256 := Nat.le_trans h.kindsLe.1 h.kindsLe.2
   have hpre : preCheck p add rels w = .ok () w := by
     apply preCheck_ok_of_valid
@@ -131,7 +133,7 @@ def guardXchg (s : St) (p : Path) (e : Ent) (add : List Comp) (rels : Rels) : Bo
 /-- the operations: those of `Ark.RelRefine2` and `Exchange` -/
 inductive Op3
   /-- an operation of `Ark.RelRefine2` (entity operations with relations, `CopyEntity`, `Shrink`,
-      `Reset`, filter operations, queries) -/
+      `Reset` — now a step that keeps the invariant —, filter operations, queries) -/
   | base2 (op : Op2)
   /-- `Exchange(e, add, rem, rels)` through the access path `p`, writing `vals` -/
   | xchg (p : Path) (e : Ent) (add : List Comp) (vals : Comps) (rem : List Comp) (rels : Rels)
@@ -234,7 +236,7 @@ theorem step3_xchg (run : ProbeRunner) {s : St} {fl : List Nat} (H : HInv2 s fl)
     obtain ⟨_, _, h2, hnf, _, hsl⟩ := HB.live_facts hm
     have ok := HB.ok e en hm
     have hmask : ∀ (c : Comp), (s.w.maskOf e).get c = true ↔ c ∈ keys en.comps := fun c => by
-      rw [HB.tinv.mask_iff_comps h2 hnf ha ok.comps c, HB.comps_iff hm c]
+      rw [HB.tinv.mask_iff_comps h2 hnf ha (Pool.lt_of_slot hsl) ok.comps c, HB.comps_iff hm c]
     have hnotpre : ¬ XchgOK s.ss en add rem rels → ¬ preXchg s.ss e add rem rels := by
       rintro hn ⟨en', hen', hp⟩
       rw [hf] at hen'
@@ -281,7 +283,7 @@ theorem step3_xchg (run : ProbeRunner) {s : St} {fl : List Nat} (H : HInv2 s fl)
         relsAll := fun c hc hr => hrall c hc (by rw [HB.rget]; exact hr)
         targets := HB.targets_alive hv }
     obtain ⟨w', hop, post, qk, ck⟩ := opExchange_rel_keep run p HB.tinv HB.unlocked HB.noObs h2 hnf
-      ha hpw vals hfew hent
+      ha (Pool.lt_of_slot hsl) hpw vals (HB.tgts_in (relsExpr_iff.mp hx).1) hfew hent
     have hstep : step3 run s (.xchg p e add vals rem rels) =
         ⟨w', s.issued, ⟨upd s.ss.ents e (xchgEntry s.ss.zst add vals rem rels),
           s.ss.zst, s.ss.isRel⟩⟩ := by
